@@ -161,7 +161,7 @@ func genAnyEntry(r *rand.Rand, depth int) V {
 	case 4:
 		return V{T: 'i', I: int64(r.Intn(50))}
 	case 5:
-		return V{T: 'O', Op: []string{"c1", "c6", "c0", "c9", fmt.Sprintf("u1:%s:%s", hx("~="), hx("approx")), fmt.Sprintf("u2:%s:%s", hx(""), hx("c")), "-"}[r.Intn(7)]}
+		return V{T: 'O', Op: []string{"c1", "c6", "c0", "c9", fmt.Sprintf("u1:%s:%s", hx("~="), hx("approx")), fmt.Sprintf("u2:%s:%s", hx(""), hx("c")), "-", "z", "y"}[r.Intn(9)]}
 	case 6:
 		return V{T: 'o', Ty: 5, ID: 1}
 	case 7:
@@ -197,7 +197,7 @@ func genAnyRow(r *rand.Rand, depth int) V {
 				if r.Intn(3) == 0 {
 					row.Xs = append(row.Xs, genAnyEntry(r, depth))
 				} else {
-					row.Xs = append(row.Xs, V{T: 'O', Op: []string{"c1", "c5", "c0", "-"}[r.Intn(4)]})
+					row.Xs = append(row.Xs, V{T: 'O', Op: []string{"c1", "c5", "c0", "-", "z", "y"}[r.Intn(6)]})
 				}
 			default:
 				row.Xs = append(row.Xs, genAnyEntry(r, depth))
